@@ -13,7 +13,8 @@ Definition check_graph (atol r : float) (n : nat) (A G : coo FNum) : option (nat
   find (fun p => let '(i, j) := p in
           let m := graph FNum r A i j in
           let g := lookup FNum G i j in
-          negb (f_close 0 atol m g) || negb (Bool.eqb (m =? 0) (g =? 0)))
+          (* an entry the model says is below the float32 range may legitimately be absent (underflow to 0, eliminated) *)
+          negb (f_close 0 atol m g) || ((g =? 0) && (0x1p-100 <? abs m)) || ((m =? 0) && negb (g =? 0)))
        (pairs n).
 
 Definition stored_zero (G : coo FNum) : bool := existsb (fun e => snd e =? 0) G.
